@@ -3,7 +3,7 @@
 //! `FuseDevWriter` (over a SOCK_SEQPACKET socketpair) and `FileVolatileSlice` with operation lists
 //! and scripted files, prints what each call lets the caller observe, and checks the property
 //! directly on the implementation (oracles), independently of the Lean model.
-use std::io::{IoSlice, Read, Write};
+use std::io::{self, IoSlice, Read, Write};
 use std::os::unix::io::RawFd;
 use std::panic::{catch_unwind, AssertUnwindSafe};
 
@@ -12,8 +12,11 @@ use fbrh::util::{args, hex, Out};
 use fbrh::vq;
 use fbrh::xscript::{pat_bytes, Ans, Core, DfltFile, FullFile, OpS};
 use fuse_backend_rs::abi::fuse_abi::InHeader;
-use fuse_backend_rs::file_buf::FileVolatileSlice;
-use fuse_backend_rs::file_traits::FileReadWriteVolatile;
+use fuse_backend_rs::file_buf::{FileVolatileBuf, FileVolatileSlice};
+use fuse_backend_rs::file_traits::{AsyncFileReadWriteVolatile, FileReadWriteVolatile};
+use fbrh::scriptfs_async::block_on;
+use std::cell::RefCell;
+use std::sync::atomic::{AtomicBool, Ordering};
 use fuse_backend_rs::transport::{FuseBuf, FuseDevWriter, Reader, VirtioFsWriter, Writer};
 use vm_memory::bitmap::BitmapSlice;
 use vm_memory::{ByteValued, Bytes, GuestAddress, GuestMemory};
@@ -93,6 +96,69 @@ fn drain(fd: RawFd) -> Vec<Vec<u8>> {
         out.push(buf[..n as usize].to_vec());
     }
     out
+}
+
+/// `am=1` / `--mode async`: operations that have an asynchronous sibling in the transport API
+/// (`async_write{,2,3}`, `async_write_from_at`, `async_read_to_at`) go through it; the expected
+/// behaviour is the synchronous model's (the same case line is fed to the same model driver)
+static ASYNC_MODE: AtomicBool = AtomicBool::new(false);
+fn am() -> bool {
+    ASYNC_MODE.load(Ordering::Relaxed)
+}
+static ASYNC_CALLS: std::sync::Mutex<std::collections::BTreeMap<&'static str, u64>> = std::sync::Mutex::new(std::collections::BTreeMap::new());
+/// count an operation that really went through the asynchronous API
+fn via_async(what: &'static str) {
+    *ASYNC_CALLS.lock().unwrap().entry(what).or_default() += 1;
+}
+
+/// the scripted file behind the asynchronous trait; every future completes at its first poll
+struct AFile(RefCell<Core>);
+
+fn buf_free_slices(bufs: &[FileVolatileBuf]) -> Vec<FileVolatileSlice<'static>> {
+    bufs.iter().map(|b| {
+        let mut m = b.io_slice_mut();
+        unsafe { FileVolatileSlice::from_raw_ptr(m.as_mut_ptr(), m.len()) }
+    }).collect()
+}
+fn buf_data_slices(bufs: &[FileVolatileBuf]) -> Vec<FileVolatileSlice<'static>> {
+    bufs.iter().map(|b| {
+        let d = b.io_slice();
+        unsafe { FileVolatileSlice::from_raw_ptr(d.as_ptr() as *mut u8, d.len()) }
+    }).collect()
+}
+fn grow(bufs: &mut [FileVolatileBuf], mut k: usize) {
+    for b in bufs.iter_mut() {
+        let c = std::cmp::min(k, b.cap() - b.len());
+        unsafe { b.set_size(b.len() + c) };
+        k -= c;
+    }
+}
+
+#[async_trait::async_trait(?Send)]
+impl AsyncFileReadWriteVolatile for AFile {
+    async fn async_read_at_volatile(&self, buf: FileVolatileBuf, offset: u64) -> (io::Result<usize>, FileVolatileBuf) {
+        let mut v = vec![buf];
+        let r = self.0.borrow_mut().source_call(&buf_free_slices(&v), Some(offset));
+        if let Ok(k) = r {
+            grow(&mut v, k);
+        }
+        (r, v.pop().unwrap())
+    }
+    async fn async_read_vectored_at_volatile(&self, mut bufs: Vec<FileVolatileBuf>, offset: u64) -> (io::Result<usize>, Vec<FileVolatileBuf>) {
+        let r = self.0.borrow_mut().source_call(&buf_free_slices(&bufs), Some(offset));
+        if let Ok(k) = r {
+            grow(&mut bufs, k);
+        }
+        (r, bufs)
+    }
+    async fn async_write_at_volatile(&self, buf: FileVolatileBuf, offset: u64) -> (io::Result<usize>, FileVolatileBuf) {
+        let r = self.0.borrow_mut().sink_call(&buf_data_slices(&[buf]), Some(offset));
+        (r, buf)
+    }
+    async fn async_write_vectored_at_volatile(&self, bufs: Vec<FileVolatileBuf>, offset: u64) -> (io::Result<usize>, Vec<FileVolatileBuf>) {
+        let r = self.0.borrow_mut().sink_call(&buf_data_slices(&bufs), Some(offset));
+        (r, bufs)
+    }
 }
 
 enum AnyFile {
@@ -280,6 +346,12 @@ fn reader_op<S: BitmapSlice>(rs: &mut Vec<Reader<'_, S>>, op: &OpS, cx: &mut Cx)
             let r = catch_unwind(AssertUnwindSafe(|| {
                 if k == "re" {
                     rs[op.h].read_exact_to(file.f(), op.n).map(|_| 0)
+                } else if let (Some(off), true) = (op.at, am() && !op.dflt) {
+                    let af = AFile(RefCell::new(Core::new(&op.answers, op.seed)));
+                    via_async("async:Reader::async_read_to_at");
+                    let r = block_on(rs[op.h].async_read_to_at(&af, op.n, off));
+                    file = AnyFile::Full(FullFile(af.0.into_inner()));
+                    r
                 } else if let Some(off) = op.at {
                     rs[op.h].read_to_at(file.f(), op.n, off)
                 } else {
@@ -370,7 +442,7 @@ fn vwriter_op<'a, S: BitmapSlice>(ws: &mut Vec<Writer<'a, S>>, op: &OpS, cx: &mu
     match k.as_str() {
         "wr" => {
             let data = pat_bytes(op.seed, 0, op.n);
-            match catch_unwind(AssertUnwindSafe(|| ws[op.h].write(&data))) {
+            match catch_unwind(AssertUnwindSafe(|| if am() { via_async("async:virtio:async_write"); block_on(ws[op.h].async_write(&data)) } else { ws[op.h].write(&data) })) {
                 Err(_) => res = "err:panic".to_string(),
                 Ok(Err(e)) => {
                     res = format!("err:{}", io_class(&e));
@@ -391,7 +463,11 @@ fn vwriter_op<'a, S: BitmapSlice>(ws: &mut Vec<Writer<'a, S>>, op: &OpS, cx: &mu
             let datas = op.datas();
             let ios: Vec<IoSlice> = datas.iter().map(|d| IoSlice::new(d)).collect();
             let tot: usize = datas.iter().map(|d| d.len()).sum();
-            match catch_unwind(AssertUnwindSafe(|| ws[op.h].write_vectored(&ios))) {
+            match catch_unwind(AssertUnwindSafe(|| match (am(), datas.len()) {
+                (true, 2) => { via_async("async:virtio:async_write2"); block_on(ws[op.h].async_write2(&datas[0], &datas[1])) }
+                (true, 3) => { via_async("async:virtio:async_write3"); block_on(ws[op.h].async_write3(&datas[0], &datas[1], &datas[2])) }
+                _ => ws[op.h].write_vectored(&ios),
+            })) {
                 Err(_) => res = "err:panic".to_string(),
                 Ok(Err(e)) => {
                     res = format!("err:{}", io_class(&e));
@@ -417,6 +493,12 @@ fn vwriter_op<'a, S: BitmapSlice>(ws: &mut Vec<Writer<'a, S>>, op: &OpS, cx: &mu
                         Writer::VirtioFs(v) => v.write_all_from(file.f(), op.n).map(|_| 0),
                         _ => unreachable!(),
                     }
+                } else if let (Some(off), true) = (op.at, am() && !op.dflt) {
+                    let af = AFile(RefCell::new(Core::new(&op.answers, op.seed)));
+                    via_async("async:virtio:async_write_from_at");
+                    let r = block_on(ws[op.h].async_write_from_at(&af, op.n, off));
+                    file = AnyFile::Full(FullFile(af.0.into_inner()));
+                    r
                 } else if let Some(off) = op.at {
                     ws[op.h].write_from_at(file.f(), op.n, off)
                 } else {
@@ -524,11 +606,18 @@ fn fwriter_op<'a>(ws: &mut Vec<Writer<'a, ()>>, op: &OpS, cx: &mut Cx) -> String
             let datas = if k == "fw" { vec![pat_bytes(op.seed, 0, op.n)] } else { op.datas() };
             let tot: usize = datas.iter().map(|d| d.len()).sum();
             let r = catch_unwind(AssertUnwindSafe(|| {
+                // unbuffered asynchronous writes use pwrite()/writev() on the descriptor, which the
+                // socket standing in for /dev/fuse refuses: only buffered writers go the async way
+                let a = am() && t.buffered;
                 if k == "fw" {
-                    ws[op.h].write(&datas[0])
+                    if a { via_async("async:fusedev:async_write"); block_on(ws[op.h].async_write(&datas[0])) } else { ws[op.h].write(&datas[0]) }
                 } else {
                     let ios: Vec<IoSlice> = datas.iter().map(|d| IoSlice::new(d)).collect();
-                    ws[op.h].write_vectored(&ios)
+                    match (a, datas.len()) {
+                        (true, 2) => { via_async("async:fusedev:async_write2"); block_on(ws[op.h].async_write2(&datas[0], &datas[1])) }
+                        (true, 3) => { via_async("async:fusedev:async_write3"); block_on(ws[op.h].async_write3(&datas[0], &datas[1], &datas[2])) }
+                        _ => ws[op.h].write_vectored(&ios),
+                    }
                 }
             }));
             match r {
@@ -571,6 +660,12 @@ fn fwriter_op<'a>(ws: &mut Vec<Writer<'a, ()>>, op: &OpS, cx: &mut Cx) -> String
                 Writer::FuseDev(v) => {
                     if k == "fa" {
                         v.write_all_from(file.f(), op.n).map(|_| 0)
+                    } else if let (Some(off), true) = (op.at, am() && t.buffered && !op.dflt) {
+                        let af = AFile(RefCell::new(Core::new(&op.answers, op.seed)));
+                        via_async("async:fusedev:async_write_from_at");
+                        let r = block_on(v.async_write_from_at(&af, op.n, off));
+                        file = AnyFile::Full(FullFile(af.0.into_inner()));
+                        r
                     } else if let Some(off) = op.at {
                         v.write_from_at(file.f(), op.n, off)
                     } else {
@@ -713,16 +808,19 @@ struct Hdr {
     chain: Vec<(bool, u64, u32)>,
     req: usize,
     cap: usize,
+    /// asynchronous API where a sibling exists
+    am: bool,
 }
 
 impl Hdr {
     fn show(&self) -> String {
+        let am = if self.am { " am=1" } else { "" };
         if self.fusedev {
-            format!("t=fusedev req={} cap={}", self.req, self.cap)
+            format!("t=fusedev req={} cap={}{}", self.req, self.cap, am)
         } else {
-            format!("t=virtio p={} lay={} chain={}", self.page,
+            format!("t=virtio p={} lay={} chain={}{}", self.page,
                 self.lay.iter().map(|(i, b, s)| format!("{}:{}:{}", i, b, s)).collect::<Vec<_>>().join(","),
-                self.chain.iter().map(|(w, a, l)| format!("{}:{}:{}", if *w { "w" } else { "r" }, a, l)).collect::<Vec<_>>().join(","))
+                self.chain.iter().map(|(w, a, l)| format!("{}:{}:{}", if *w { "w" } else { "r" }, a, l)).collect::<Vec<_>>().join(","), am)
         }
     }
     fn parse(kv: &std::collections::BTreeMap<String, String>) -> Hdr {
@@ -736,7 +834,7 @@ impl Hdr {
             let f: Vec<&str> = t.split(':').collect();
             (f[0] == "w", f[1].parse().unwrap(), f[2].parse().unwrap())
         }).collect();
-        Hdr { fusedev: g("t") == "fusedev", page: if n("p") == 0 { 4096 } else { n("p") }, lay, chain, req: n("req"), cap: n("cap") }
+        Hdr { fusedev: g("t") == "fusedev", page: if n("p") == 0 { 4096 } else { n("p") }, lay, chain, req: n("req"), cap: n("cap"), am: g("am") == "1" }
     }
 }
 
@@ -778,6 +876,7 @@ fn finish_line(init: &str, obs: &[String], mem: &[String], dirty: &str, fin: &st
 }
 
 fn run_virtio(h: &Hdr, sock: (RawFd, RawFd), next: &mut Provider) -> CaseResult {
+    ASYNC_MODE.store(h.am, Ordering::Relaxed);
     const QSIZE: usize = 0x10000;
     let mut ranges: Vec<(u64, usize)> = vec![(0, QSIZE)];
     ranges.extend(h.lay.iter().map(|&(_, b, s)| (b, s)));
@@ -904,6 +1003,7 @@ fn run_virtio(h: &Hdr, sock: (RawFd, RawFd), next: &mut Provider) -> CaseResult 
 }
 
 fn run_fusedev(h: &Hdr, sock: (RawFd, RawFd), next: &mut Provider) -> CaseResult {
+    ASYNC_MODE.store(h.am, Ordering::Relaxed);
     let mut reqbuf: Vec<u8> = (0..h.req).map(rfill).collect();
     let mut scratch: Vec<u8> = (0..h.cap + 2 * GUARD).map(|i| if i < GUARD || i >= GUARD + h.cap { CANARY } else { wfill(i - GUARD) }).collect();
     let initial = vec![reqbuf.clone(), scratch.clone()];
@@ -1234,7 +1334,7 @@ fn gen_hdr(r: &mut Prng, prop: &str) -> Hdr {
     if prop != "C17" && r.chance(1, 4) {
         let cap = match r.below(6) { 0 => 0, 1 => 1, 2 => 16, _ => r.below(300) as usize };
         let req = match r.below(5) { 0 => 0, 1 => 1, 2 => 40, _ => r.below(200) as usize };
-        return Hdr { fusedev: true, page: 4096, lay: vec![], chain: vec![], req, cap };
+        return Hdr { fusedev: true, page: 4096, lay: vec![], chain: vec![], req, cap, am: false };
     }
     let page = *r.pick(&[4096usize, 4096, 64, 2]);
     let (s1, s2): (usize, usize) = match page { 4096 => (6 * 4096, 4 * 4096 + 17), 64 => (2048, 1024 + 5), _ => (1024, 513) };
@@ -1296,7 +1396,7 @@ fn gen_hdr(r: &mut Prng, prop: &str) -> Hdr {
                 chain[i].2 = 8;
             }
         }
-        return Hdr { fusedev: false, page, lay, chain, req: 0, cap: 0 };
+        return Hdr { fusedev: false, page, lay, chain, req: 0, cap: 0, am: false };
     }
 }
 
@@ -1369,9 +1469,10 @@ fn main() {
     let seed: u64 = a.get("seed").and_then(|s| s.parse().ok()).unwrap_or(1);
     let n: u64 = a.get("n").and_then(|s| s.parse().ok()).unwrap_or(2000);
     let prop = a.get("prop").cloned().unwrap_or_else(|| "C04".into());
-    let mut r = Prng::new(seed ^ 0x7a9047);
+    let asyncm = a.get("mode").map(|m| m == "async").unwrap_or(false);
+    let mut r = Prng::new(seed ^ 0x7a9047 ^ if asyncm { 0xa5 } else { 0 });
     for i in 0..n {
-        if prop == "C04" && i % 10 == 9 {
+        if prop == "C04" && i % 10 == 9 && !asyncm {
             let line = gen_adapter(&mut r);
             out.stat("t:adapter");
             for o in line.split("ops=").nth(1).unwrap_or("").split(';') {
@@ -1380,7 +1481,8 @@ fn main() {
             replay_line(&line, sock, &mut out);
             continue;
         }
-        let h = gen_hdr(&mut r, &prop);
+        let mut h = gen_hdr(&mut r, &prop);
+        h.am = asyncm;
         let nops = r.range(1, 40) as usize;
         let mut cnt = 0;
         let res = catch_unwind(AssertUnwindSafe(|| {
@@ -1423,6 +1525,9 @@ fn main() {
         }
         write_hits(&mut out, &line, &res.hits);
         out.case(&line, &res.impl_line);
+    }
+    for (k, v) in ASYNC_CALLS.lock().unwrap().iter() {
+        out.stat_n(k, *v);
     }
     out.finish();
 }
